@@ -114,6 +114,13 @@ func init() {
 		B + "SetString": func(fr *frame, a []value) value {
 			s, ok := a[1].(string)
 			if !ok {
+				if fr.i.m.BigText {
+					r, ok := fr.i.parseBigCells(strCells(a[1]), int(asInt64(a[2])))
+					if !ok {
+						return tuple{(*value)(nil), false}
+					}
+					return tuple{setBig(a[0], r), true}
+				}
 				unsup("big.Int.SetString of symbolic string")
 			}
 			if len(s) > 0 && s[0] == '<' {
@@ -347,6 +354,9 @@ func init() {
 			if p, ok := a[0].(*value); ok && p == nil {
 				return "<nil>"
 			}
+			if fr.i.m.BigText {
+				return mkStr(fr.i.bigDigits(getBig(a[0])))
+			}
 			return fr.i.bigPlaceholder(getBig(a[0]))
 		},
 		B + "Text": func(fr *frame, a []value) value {
@@ -354,9 +364,15 @@ func init() {
 			if b.c != nil {
 				return b.c.Text(int(asInt64(a[1])))
 			}
+			if fr.i.m.BigText && asInt64(a[1]) == 10 {
+				return mkStr(fr.i.bigDigits(b))
+			}
 			return fr.i.bigPlaceholder(b)
 		},
 		B + "MarshalText": func(fr *frame, a []value) value {
+			if fr.i.m.BigText {
+				return tuple{append([]value{}, fr.i.bigDigits(getBig(a[0]))...), iface{}}
+			}
 			s := fr.i.bigPlaceholder(getBig(a[0]))
 			out := make([]value, len(s))
 			for j := 0; j < len(s); j++ {
@@ -366,6 +382,14 @@ func init() {
 		},
 		B + "UnmarshalText": func(fr *frame, a []value) value {
 			bs := a[1].([]value)
+			if fr.i.m.BigText {
+				r, ok := fr.i.parseBigCells(bs, 0)
+				if !ok {
+					return fr.i.mkError("math/big: cannot unmarshal text into a *big.Int")
+				}
+				setBig(a[0], r)
+				return iface{}
+			}
 			raw := make([]byte, len(bs))
 			for j, c := range bs {
 				b, ok := c.(uint8)
